@@ -23,8 +23,8 @@ constexpr int NWAT = 3;   // deathwatched objects
 constexpr int NTRC = 3;   // tracer nesting depth
 constexpr int INF = 255;  // upper bound "unbounded"
 
-enum Fn : int8_t { F1 = 0, G1 = 1, F2 = 2, V1 = 3, R1 = 4, CR1 = 5, SV1 = 6, CF1 = 7, NFN = 8 };  // CF1: the const overload of f(int)
-enum MK : int8_t { MK_ANY = 0, MK_EQ, MK_LT, MK_VAL, MK_NE, MK_GE };
+enum Fn : int8_t { F1 = 0, G1 = 1, F2 = 2, V1 = 3, R1 = 4, CR1 = 5, SV1 = 6, CF1 = 7, Z0 = 8, NFN = 9 };  // CF1: the const overload of f(int); Z0: int z() - no parameters
+enum MK : int8_t { MK_ANY = 0, MK_EQ, MK_LT, MK_VAL, MK_NE, MK_GE, MK_ANYM /* written ANY(int): a macro inside the expectation text */ };
 enum TimesForm : int8_t { TF_RT = 0, TF_DEFAULT, TF_N, TF_LH, TF_ATLEAST, TF_ATMOST, TF_ALLOW, TF_FORBID, TF_RT1 /* RT_TIMES(n): exactly n */ };
 enum Act : int8_t { ACT_RET = 0, ACT_THROW_INT, ACT_THROW_STD, ACT_NONE, ACT_RETREF, ACT_RETCAP /* RETURN(local captured by copy) from a function returning const int& */, ACT_RETSTR /* std::string returned by value */ };
 enum MockKind : int8_t { MOCK_M = 0, MOCK_MV = 1, MOCK_WATCHED = 2 };
